@@ -13,7 +13,7 @@ from pw_verif.snap import Malformed
 
 PROP = "C08"
 LEVEL = "exploration"
-BUDGET = {"quick": 400, "thorough": 6000}
+BUDGET = {"quick": 500, "thorough": 6000}
 MIN_PER_SHARD = 10
 RULE = (
     "Two generated families. (A) direct: worlds/layouts as in C01 with complex vectors and pure / mixed / "
@@ -28,7 +28,7 @@ RULE = (
     "the sampler. Non-trivial = the layout holds a non-basis state (complex phases, entanglement or mixture); "
     "distinct = hash of (family, layout, steps)."
 )
-RULE += ' (C) one case in eight: a pure state held as a density matrix is taken out of the unit-trace regime by a non-unitary user operator through the non-renormalising Custom type with automatic contraction off, then contracted explicitly or by switching contraction back on; states are compared after normalisation (the ray must not change).'
+RULE += ' (C) one case in ten: a pure state held as a density matrix is taken out of the unit-trace regime by a non-unitary user operator through the non-renormalising Custom type with automatic contraction off, then contracted explicitly or by switching contraction back on; states are compared after normalisation (the ray must not change).'
 ASSUMPTIONS = ["reference self-tests passed", "after a displacement/squeezing step the twins may choose different cut-offs, each within the truncation tolerance: they are then compared to 1e-2", "twins share the seed and the forced-outcome scripts, so they follow the same branch whenever their probabilities agree",
                "a twin triple is abandoned (counted) when any twin fails a step for a reason belonging to another property"]
 
@@ -65,7 +65,7 @@ def _unnormalised_case(draw):
 
 @st.composite
 def _case(draw):
-    if draw(st.integers(0, 7)) == 0:
+    if draw(st.integers(0, 9)) == 0:
         return draw(_unnormalised_case())
     if draw(st.integers(0, 2)) == 0:
         c = draw(S.program_case(["struct_rep"], max_steps=4))
